@@ -191,4 +191,42 @@ theorem completion_after_command_words (target : Str) (P : Prog) (words : List S
   rw [h1, h2, h3]
   simp [initState]
 
+/-- **Values offered after `--key=`.**  The value candidates are exactly the declared (or computed) values whose
+full spelling `--key=value` starts with the typed word — each offered as that full spelling for zsh, and as the
+text after the first `=` for bash; nothing else, and none of them left out. -/
+theorem value_candidates (target k w : Str) (vals : List Str) (c : Str) :
+    c ∈ valueCands target k w vals ↔
+      ∃ e ∈ vals, hasPrefix (b "--" ++ k ++ [chEq] ++ e) w = true ∧
+        c = (if target == b "bash" then afterEq (b "--" ++ k ++ [chEq] ++ e) else b "--" ++ k ++ [chEq] ++ e) := by
+  unfold valueCands
+  simp only [List.mem_filterMap]
+  constructor
+  · rintro ⟨e, he, h⟩
+    by_cases hp : hasPrefix (b "--" ++ k ++ [chEq] ++ e) w = true
+    · simp only [hp, ↓reduceIte, Option.some.injEq] at h
+      exact ⟨e, he, hp, h.symm⟩
+    · simp only [hp, Bool.false_eq_true, ↓reduceIte] at h
+      cases h
+  · rintro ⟨e, he, hp, hc⟩
+    exact ⟨e, he, by simp only [hp, ↓reduceIte, Option.some.injEq]; exact hc.symm⟩
+
+theorem length_filterMap_ite {α β} (l : List α) (p : α → Bool) (f : α → β) :
+    (l.filterMap fun e => if p e = true then some (f e) else none).length = (l.filter p).length := by
+  induction l with
+  | nil => rfl
+  | cons e r ih =>
+    simp only [List.filterMap_cons, List.filter_cons]
+    cases hp : p e <;> simp [ih]
+
+/-- as many candidates as declared values that fit: a value declared twice is offered twice, none is dropped -/
+theorem value_candidates_length (target k w : Str) (vals : List Str) :
+    (valueCands target k w vals).length = (vals.filter fun e => hasPrefix (b "--" ++ k ++ [chEq] ++ e) w).length :=
+  length_filterMap_ite vals (fun e => hasPrefix (b "--" ++ k ++ [chEq] ++ e) w)
+    (fun e => if target == b "bash" then afterEq (b "--" ++ k ++ [chEq] ++ e) else b "--" ++ k ++ [chEq] ++ e)
+
+example : valueCands (b "zsh") (b "env") (b "--env=d") [b "dev", b "staging", b "demo"] =
+    [b "--env=dev", b "--env=demo"] ∧
+  valueCands (b "bash") (b "env") (b "--env=d") [b "dev", b "staging", b "demo"] = [b "dev", b "demo"] := by decide
+
+
 end GoModel
